@@ -104,7 +104,7 @@ fn on_enum(inp: &mut syn::DeriveInput) -> syn::Result<proc_macro2::TokenStream> 
                 let idents = fields.fields().idents();
                 match encoding {
                     Encoding::Map => quote! {
-                        #name::#con{#(#idents,)* ..} => { 1 + (#idx as u32).cbor_len(__ctx777) + #tag + #(#steps)* }
+                        #name::#con{#(#idents,)* ..} => { #(#steps)* + #tag + 1 + (#idx as u32).cbor_len(__ctx777) }
                     },
                     Encoding::Array => quote! {
                         #name::#con{#(#idents,)* ..} => { #(#steps)* + #tag + 1 + (#idx as u32).cbor_len(__ctx777) }
@@ -119,7 +119,7 @@ fn on_enum(inp: &mut syn::DeriveInput) -> syn::Result<proc_macro2::TokenStream> 
                 let idents = fields.match_idents();
                 match encoding {
                     Encoding::Map => quote! {
-                        #name::#con(#(#idents,)*) => { 1 + (#idx as u32).cbor_len(__ctx777) + #tag + #(#steps)* }
+                        #name::#con(#(#idents,)*) => { #(#steps)* + #tag + 1 + (#idx as u32).cbor_len(__ctx777) }
                     },
                     Encoding::Array => quote! {
                         #name::#con(#(#idents,)*) => { #(#steps)* + #tag + 1 + (#idx as u32).cbor_len(__ctx777) }
@@ -169,9 +169,13 @@ fn on_enum(inp: &mut syn::DeriveInput) -> syn::Result<proc_macro2::TokenStream> 
 fn on_fields(fields: &Fields, has_self: bool, encoding: Encoding) -> syn::Result<Vec<proc_macro2::TokenStream>> {
     let steps = match encoding {
         Encoding::Map => {
+            // The map header carries the number of entries actually written,
+            // i.e. the fields which are not nil (cf. `encode::encode_fields`).
             let mut steps = Vec::new();
-            let len = fields.fields().len();
-            steps.push(quote!(#len.cbor_len(__ctx777)));
+            steps.push(quote! {
+                let mut __num777 = 0usize;
+                let mut __len777 = 0;
+            });
             for field in fields.fields() {
                 if field.attrs.skip() {
                     continue
@@ -181,35 +185,24 @@ fn on_fields(fields: &Fields, has_self: bool, encoding: Encoding) -> syn::Result
                 let ident    = &field.ident;
                 let idx      = field.index;
                 let tag      = on_tag(&field.attrs);
-                if has_self {
+                let value    = if has_self {
                     if field.is_name {
-                        steps.push(quote! {
-                            + if #is_nil(&self.#ident) {
-                                0
-                            } else {
-                                (#idx as u32).cbor_len(__ctx777) + #tag + #cbor_len(&self.#ident, __ctx777)
-                            }
-                        })
+                        quote!(&self.#ident)
                     } else {
                         let i = syn::Index::from(field.pos);
-                        steps.push(quote! {
-                            + if #is_nil(&self.#i) {
-                                0
-                            } else {
-                                (#idx as u32).cbor_len(__ctx777) + #tag + #cbor_len(&self.#i, __ctx777)
-                            }
-                        })
+                        quote!(&self.#i)
                     }
                 } else {
-                    steps.push(quote! {
-                        + if #is_nil(&#ident) {
-                            0
-                        } else {
-                            (#idx as u32).cbor_len(__ctx777) + #tag + #cbor_len(&#ident, __ctx777)
-                        }
-                    })
-                }
+                    quote!(&#ident)
+                };
+                steps.push(quote! {
+                    if !#is_nil(#value) {
+                        __len777 += (#idx as u32).cbor_len(__ctx777) + #tag + #cbor_len(#value, __ctx777);
+                        __num777 += 1
+                    }
+                })
             }
+            steps.push(quote! { __num777.cbor_len(__ctx777) + __len777 });
             steps
         }
         Encoding::Array => {
